@@ -274,8 +274,8 @@ func buildSerModel(c *Ctx) *serModel {
 		}
 		c.Unit("serialize_loop_paths", len(m.writers))
 		c.Unit("deserialize_loop_paths", len(m.readers))
-		c.MinCount("Serialize tag paths", len(m.writers), 60)
-		c.MinCount("Deserialize tag paths (with and without a pending NOP run)", len(m.readers), 30)
+		c.MinCount("Serialize tag paths", len(m.writers), 40)
+		c.MinCount("Deserialize tag paths (with and without a pending NOP run)", len(m.readers), 20)
 		return m
 	})
 	return v.(*serModel)
